@@ -293,6 +293,22 @@ func c13Gen(r *rand.Rand) c13Scenario {
 	return s
 }
 
+// c13LineAt: index of the first transfer's well-formed ACT (client side) / CFG (server side) token in the chunk, or -1
+func c13LineAt(c []int, side string) int {
+	want := c13ACT
+	if side == "s" {
+		want = c13CFG
+	}
+	for i, t := range c {
+		if t == want {
+			return i
+		}
+	}
+	return -1
+}
+
+var splitLines atomic.Int64
+
 func c13Run(tr *vTrace, id int, sc c13Scenario, seed int64) (ok bool) {
 	rng := rand.New(rand.NewSource(seed))
 	var rmu sync.Mutex
@@ -497,7 +513,18 @@ func c13Run(tr *vTrace, id int, sc c13Scenario, seed int64) (ok bool) {
 			case 1:
 				time.Sleep(time.Duration(rnd(2)) * time.Millisecond)
 			}
-			rd.ch <- c13Chunk{c13Render(c, uid, sc.Confirm), c}
+			// now and then the transport cuts the ACT / CFG line right in front of its line feed: the model's chunks are
+			// [tokens in front of the line] and [line, tokens behind it]; the bytes of the line lie across both reads
+			if ai := c13LineAt(c, side); ai > 0 && ai < len(c)-1 && !sc.Stale && rnd(3) == 0 {
+				line := c13Render(c[ai:ai+1], uid, sc.Confirm)
+				a := append(c13Render(c[:ai], uid, sc.Confirm), line[:len(line)-1]...)
+				b := append([]byte("\n"), c13Render(c[ai+1:], uid, sc.Confirm)...)
+				rd.ch <- c13Chunk{a, c[:ai]}
+				rd.ch <- c13Chunk{b, c[ai:]}
+				splitLines.Add(1)
+			} else {
+				rd.ch <- c13Chunk{c13Render(c, uid, sc.Confirm), c}
+			}
 			if sc.Stale && side == "s" && ci == staleOpenAfter {
 				time.Sleep(30 * time.Millisecond) // the chunk behind the second trigger is parked by now
 				openGate()
@@ -565,6 +592,7 @@ func c13Relay(d *vCtx) error {
 				break // goroutines of the stuck relay may still fire hooks: do not record further runs here
 			}
 		}
+		d.add("lines_cut_before_lf", int(splitLines.Load()))
 		if err := tr.Close(); err != nil {
 			return err
 		}
